@@ -135,6 +135,12 @@ def k_seq(run, case):
             h = n // 2
             arr["p"][:h] = np.cumsum(np.abs(rng.normal(size=(h, 3))) * 2e5 / max(h, 1), axis=0)
             arr["p"][h:] = arr["p"][h - 1] + rng.normal(size=(n - h, 3)) * 1e-6
+    if rng.random() < .1:
+        # an (almost) constant attitude: a generic orientation with micro-radian wobble (gimbal-stabilised
+        # sensor, a vehicle on a straight road)
+        R0 = gen.rand_rot(rng)
+        for k in range(n):
+            arr["R"][k] = R0 @ rm.rodrigues(gen.rand_axis(rng), float(10.0**rng.uniform(-7, -5.3)))
     if rng.random() < .15:
         # almost, not exactly, straight up / down: cos(pitch) between 3e-9 and 1e-6 (roll and yaw
         # are still well defined to ~1e-7 rad there)
